@@ -377,14 +377,14 @@ def run(ctx):
     import multiprocessing
     jobs = []
     for isa, unit in UNITS.items():
-        maxn = {"sse": 70, "avx2": 140, "avx512": 280}[isa]
+        maxn = {"sse": ctx.depth(70, 200), "avx2": ctx.depth(140, 400), "avx512": ctx.depth(280, 800)}[isa]
         for fn in sorted(P.funcs_in(unit), key=lambda f: f.line):
             if fn.static or not fn.name.startswith("carquet_%s_" % isa):
                 continue
             jobs.append((P, fn, fn.name.replace("carquet_%s_" % isa, ""), isa, maxn))
     for fn in sorted(P.funcs_in(DP), key=lambda f: f.line):
         if fn.name.startswith("scalar_"):
-            jobs.append((P, fn, fn.name.replace("scalar_", "").replace("byte_split", "byte_stream_split"), "scalar", 40))
+            jobs.append((P, fn, fn.name.replace("scalar_", "").replace("byte_split", "byte_stream_split"), "scalar", ctx.depth(40, 130)))
     _JOBS.clear()
     for i, j in enumerate(jobs):
         _JOBS[i] = j
